@@ -229,7 +229,19 @@ func vfTunnelScenarios() []vfScenario {
 }
 
 // vfDryRun runs the scenario fault-free and returns the number of messages per direction.
+// A dry run that fails is tried again twice (it is a precondition of the enumeration, not a verdict about the property: that
+// fault-free transfers succeed is C01's subject, and on a machine that is busy beyond measure a 60 s bound can pass by itself).
 func vfDryRun(sc vfScenario) (c2s, s2c int, msg string) {
+	for try := 0; try < 3; try++ {
+		if c2s, s2c, msg = vfDryRunOnce(sc); msg == "" {
+			return
+		}
+		time.Sleep(2 * time.Second)
+	}
+	return
+}
+
+func vfDryRunOnce(sc vfScenario) (c2s, s2c int, msg string) {
 	e, err := vfScenSetup(sc)
 	if err != nil {
 		return 0, 0, "setup: " + err.Error()
